@@ -11,11 +11,14 @@ NA = {
         "code shape (static analysis does not apply; see DESIGN.md section 6)",
 }
 PENDING = "check not built yet (build in progress)"
+READY = open(os.path.join(HERE, "tools", "ready.txt")).read().split()
 
 checks, na = [], []
 for i in range(1, 21):
     pid = f"C{i:02d}"
     try:
+        if pid not in READY:
+            raise ModuleNotFoundError
         mod = importlib.import_module(f"rules.{pid.lower()}")
     except ModuleNotFoundError:
         na.append(dict(property_id=pid, reason=NA.get(pid, PENDING)))
